@@ -3,3 +3,4 @@ from . import tr_names  # noqa
 from . import tr_ops  # noqa
 from . import tr_dispatch  # noqa
 from . import tr_sets  # noqa
+from . import tr_universe  # noqa
